@@ -202,8 +202,11 @@ def showEv : Ev → List String
   | .reg k c ok => [s!"P reg s{k} cb{c} rc={if ok then "OK" else "AWS_ERROR_THREAD_NOT_JOINABLE"}"]
   | .done k => [s!"P done s{k}"]
   | .cb o c on => [s!"P cb s{o} cb{c} on=s{on}"]
-  | .joinRet k b => [s!"P join s{k} by=s{b} rc=OK"]
-  | .joinSkip k b => [s!"P join s{k} by=s{b} rc=OK"]
+  | .joinRet k b => [s!"P join s{k} by=s{b} rc=OK pre=JOINABLE post=JOIN_COMPLETED"]
+  | .joinSkip k b h =>
+    let n := match h with | .notCreated => "NOT_CREATED" | .joinable => "JOINABLE" | .managed => "MANAGED" | .joinCompleted => "JOIN_COMPLETED"
+    [s!"P join s{k} by=s{b} rc=OK pre={n} post={n}"]
+  | .joinFail k b e => [s!"P join s{k} by=s{b} rc={if e == 35 then "AWS_ERROR_THREAD_DEADLOCK_DETECTED" else "AWS_ERROR_THREAD_NOT_JOINABLE"} pre=JOINABLE post=JOINABLE"]
   | .count b n => [s!"P count s{b} {n}"]
   | .joinAllBegin b => [s!"P joinall begin s{b}"]
   | .joinAllRet _ ok _ => [s!"P joinall rc={if ok then "OK" else "ERR"}"]
@@ -226,7 +229,7 @@ def runCase (d : DState) (mode : Nat) (list : List Int) : List String :=
   let P := mkProg d
   let (s, c, out) := runLoop P 20000 (init P) { mode := mode, list := list }
   let live := s.wLive + s.cbLive
-  let misuse := (s.wlog.filter (fun e => e.kind == "unlock" && e.aux != 0)).length + s.misuse
+  let misuse := (s.wlog.filter (fun e => (e.kind == "unlock" && e.aux != 0) || ((e.kind == "join" || e.kind == "detach") && e.aux == 22))).length + s.misuse
   let unjoined := ((List.range 8).filter (fun k => P.managed k && decide (2 ≤ (s.th k).status.rank) &&
     (s.th k).status != .joined)).length
   let dl := if out == .deadlock then 1 else 0
